@@ -16,6 +16,20 @@ def renderErrs (es : List Err) : String :=
 
 def dedup (xs : List String) : List String := xs.foldl (fun acc x => if acc.contains x then acc else acc ++ [x]) []
 
+/-- independent executable oracle (does not use `validate`): in an accepted update every enum nested
+in the contract keeps its cases as a prefix, and every field a nested composite declares was declared
+before (by name) -/
+def specOk (o n : Decl) : Option String :=
+  let kids := fun (d : Decl) => d.composites ++ d.attachments ++ d.interfaces
+  (kids o).findSome? fun oc =>
+    match (kids n).find? (fun nc => nc.name == oc.name) with
+    | none => none
+    | some nc =>
+      if oc.kind == .enum && !(oc.cases.isPrefixOf nc.cases) then some "accepted-update-changes-enum-meaning"
+      else if nc.fields.any (fun nf => !(oc.fields.any (fun f => f.name == nf.name))) && nc.kind == oc.kind then
+        some "accepted-update-adds-field"
+      else none
+
 def judgeV (names oldSX newSX go : String) : Verdict :=
   if oldSX == "-" || newSX == "-" then .skip "parse-error" else
   match SX.parse oldSX >>= readProgram, SX.parse newSX >>= readProgram with
@@ -24,8 +38,12 @@ def judgeV (names oldSX newSX go : String) : Verdict :=
     let model := renderErrs es
     let tags := dedup (es.map Err.name)
     let tags := if es.isEmpty then ["accepted"] else tags
-    if go == model then .ok ("!nt" :: tags)
-    else .modelDiff model tags
+    let viol := if go == "ok" then (match o.root, n.root with | some a, some b => specOk a b | _, _ => none) else none
+    match viol with
+    | some cls => .violation cls "stored values must stay usable (enum cases keep their raw values; no new fields)" tags
+    | none =>
+      if go == model then .ok ("!nt" :: tags)
+      else .modelDiff model tags
   | _, _ => .skip "unreadable-sx"
 
 def judge (op : List String) (go : String) : Verdict :=
